@@ -1521,6 +1521,22 @@ def clause_residual_shape(ctx):
         norm(div[0].value) == "weight_dist"
     ctx.check(ok, wf, "distance normalised by weight_dist",
               "the distance is not divided by the weighting distance")
+    # ... the distance the caller gave, not a re-bound one
+    rebound = [s_ for s_ in walk_no_nested(wf, False)
+               if isinstance(s_, (ast.Assign, ast.AugAssign)) and any(
+                   isinstance(n_, ast.Name) and n_.id in wparams[2:3]
+                   and isinstance(n_.ctx, ast.Store)
+                   for t_ in (s_.targets if isinstance(s_, ast.Assign)
+                              else [s_.target]) for n_ in ast.walk(t_))]
+    for s_ in rebound:
+        ctx.fail(s_, f"weighting distance re-bound: {norm(s_)[:50]}",
+                 f"compute_contact_point_weights replaces the weighting "
+                 f"distance it was given (`{norm(s_)[:60]}`): the weights "
+                 "are no longer min(|delta - cp| / weight_dist, 1) for "
+                 "the distance of the setting (e.g. a distance larger "
+                 "than the data's extent is shortened), so the default "
+                 "residuals are not (data - model) x the contact-point "
+                 "weights")
     clip = [s for s in walk_no_nested(wf, False) if isinstance(s, ast.Assign)
             and isinstance(s.targets[0], ast.Subscript)
             and norm(s.targets[0].value) == xv]
